@@ -418,6 +418,16 @@ func runHistory(ops []string) string {
 				same = "0"
 			}
 			emit(fmt.Sprintf("S=id%d,key%d,c%s,sf%s,ci%s,disk%s,x%s", seenID[devid], seenKey[key], txt["c#"], txt["sf"], txt["ci"], same, hx([]byte(uri))))
+		case p[0] == "C":
+			// C:<g>:<struct>  a start with <struct> in a child process that is killed at global crash point <g>
+			stop()
+			g, _ := strconv.Atoi(p[1])
+			how := runChild(g, "cfgset", dir, p[2])
+			if how != "killed" && how != "exit0" {
+				emit("C=child-" + how)
+			} else {
+				emit("C=done")
+			}
 		case p[0] == "X":
 			stop()
 		case p[0] == "T":
